@@ -306,6 +306,30 @@ def run_case(ctx, case):
     ctx.check(isinstance(inst, orig) and type(inst) is orig, 'instance-type-not-exactly-original', 'cls-neither: %r' % type(inst))
     ctx.bucket('type-identity')
 
+  # ---- the same object registered once more under the same name (accepted, also outside interactive mode): lookups through the object keep working
+  if api in ('register', 'external') and kind not in ('cls-final', 'cls-meta-kwargs') and n % 3 == 0:
+    ctx.bucket('history:same-object-registered-again')
+    try:
+      do_register(gin, api, case['form'], orig, name, module, explicit)
+      again_ok = True
+    except Exception as e:  # pylint: disable=broad-except
+      again_ok = False
+      ctx.count('same_object_again_refused')      # refusing is not constrained; losing the object is
+    try:
+      c2 = gin.get_configurable(orig)
+      gin.get_bindings(orig)
+      ctx.count('oracle_evals')
+    except Exception as e:  # pylint: disable=broad-except
+      ctx.check(False, 'registered-object-lost-after-registering-it-again', 'after %s the object is unknown to get_configurable/get_bindings: %s: %s' % (
+          'registering the same object again under the same name' if again_ok else 'a refused second registration', type(e).__name__, str(e)[:200]))
+    try:
+      gin.bind_parameter(full + '.' + param, 41)
+      got = extract(gin.get_configurable(orig)())
+      ctx.check(got == 41, 'registered-object-lost-after-registering-it-again', 'after the second registration a binding through %s delivered %r' % (full, got))
+    except Exception as e:  # pylint: disable=broad-except
+      ctx.check(False, 'registered-object-lost-after-registering-it-again', 'after the second registration binding/calling through %s raised %s: %s' % (full, type(e).__name__, str(e)[:200]))
+    gin.clear_config()
+
   # ---- rejected registrations leave the registry unchanged
   rej = case['reject']
   if rej:
@@ -318,10 +342,32 @@ def run_case(ctx, case):
     tries = []
     if rej == 'invalid-name':
       tries = [lambda: gin.register('bad name', module='c13')(other), lambda: gin.external_configurable(other, name='1abc'),
-               lambda: gin.configurable('a..b')(other), lambda: gin.register('a/b')(other)]
+               lambda: gin.configurable('a..b')(other), lambda: gin.register('a/b')(other),
+               # an explicitly given empty name is an invalid name, not "no name given"
+               lambda: gin.register('')(other), lambda: gin.configurable('')(other), lambda: gin.external_configurable(other, name=''),
+               lambda: gin.register('', module='c13')(other)]
     elif rej == 'invalid-module':
       tries = [lambda: gin.register('okname' + base, module='bad module')(other), lambda: gin.external_configurable(other, module='a..b'),
-               lambda: gin.configurable(module='1x')(other)]
+               lambda: gin.configurable(module='1x')(other),
+               # a dotted name together with an invalid module
+               lambda: gin.register('pkg.okname' + base, module='not a module')(other), lambda: gin.external_configurable(other, name='pkg.ok' + base, module='a..b'),
+               lambda: gin.configurable('pkg.ok' + base, module='1abc')(other)]
+      # ... applied to a class (its constructor must not have been replaced) that has a Gin-registered method (which must stay registered)
+      mcls = make_original('cls-methods', 'IM' + base)[0]
+      msel = 'vfc13mod.meth_IM' + base
+      ctor_before = (mcls.__dict__.get('__init__'), mcls.__dict__.get('__new__'))
+      for label, reg in (('configurable', lambda: gin.configurable('pkg.im' + base, module='a..b')(mcls)), ('register', lambda: gin.register('pkg.im' + base, module='not a module')(mcls)),
+                         ('external_configurable', lambda: gin.external_configurable(mcls, name='pkg.im' + base, module='1abc'))):
+        try:
+          reg()
+          ctx.check(False, 'bad-registration-accepted', '%s of a class under a dotted name with an invalid module succeeded' % label)
+        except (ValueError, TypeError):
+          ctx.count('oracle_evals')
+        ctx.check((mcls.__dict__.get('__init__'), mcls.__dict__.get('__new__')) == ctor_before, 'registration-altered-original',
+                  'a refused %s (dotted name, invalid module) replaced the class constructor' % label)
+        ctx.check(gin.config._REGISTRY.get(msel) is not None, 'rejected-registration-changed-registry',
+                  'a refused %s (dotted name, invalid module) lost the registered method %s' % (label, msel))
+      ctx.bucket('reject:class-with-registered-method-invalid-module')
     elif rej == 'different-object-same-name':
       mod_, nm_ = full.rsplit('.', 1) if '.' in full else (None, full)
       tries = [lambda: gin.register(nm_, module=mod_)(other), lambda: gin.external_configurable(other, name=nm_, module=mod_)]
